@@ -7,28 +7,9 @@
 (* the outcome the language defines as one ROW for replay into the real    *)
 (* evaluator.  Properties C01 (values), C05 (truth), C16 (containers).     *)
 (***************************************************************************)
-EXTENDS EFValues, Json
+EXTENDS EFCorpus, Json
 
 CONSTANT Tier          \* "quick" | "thorough"
-
-cp(s) == s             \* documentation only: code-point sequences are written out
-
-\* S(<<233, 97, 98>>) = "éab": a multi-byte character followed by single-byte ones
-\* "a" = 97, "b" = 98, "B" = 66, "é" = 233, "1" = 49, "0" = 48, "9" = 57, "日" = 26085, 😀 = 128512
-Vals == <<
-  I(0), I(1), I(-1), I(2), I(3), I(7), I(-7), I(10), I(255), I(65534), I(65535), I(65536), I(-65535),
-  F(0, 1), F(1, 2), F(-1, 2), F(1, 4), F(1, 1), F(3, 2), F(2, 1), F(5, 2), F(-2, 1), F(65535, 1), F(7, 1),
-  S(<<>>), S(<<97>>), S(<<98>>), S(<<97, 98>>), S(<<66>>), S(<<97, 233>>), S(<<49, 48>>), S(<<57>>), S(<<26085, 128512>>), S(<<233, 97, 98>>),
-  B(TRUE), B(FALSE), N,
-  A(<<>>), A(<<I(1)>>), A(<<I(1), S(<<97>>)>>), A(<<S(<<97>>), S(<<97, 98>>)>>), A(<<F(3, 2), B(TRUE), I(7)>>),
-  H(<<>>), H(<<<<S(<<97>>), I(1)>>>>), H(<<<<I(1), S(<<120>>)>>, <<S(<<49>>), S(<<121>>)>>, <<F(3, 2), I(7)>>>>),
-  R(<<97>>, ""), R(<<94, 97>>, ""), R(<<98, 36>>, "i"), R(<<97, 46, 42, 98>>, ""), R(<<>>, "")
->>
-NV == Len(Vals)
-
-\* reduced set for nestings: one or two per type, plus the inline-constant boundary
-Red == << I(0), I(2), I(-7), I(65535), F(3, 2), F(2, 1), S(<<97>>), S(<<>>), B(TRUE), B(FALSE), N, A(<<I(2), S(<<97>>)>>) >>
-NR == Len(Red)
 
 \* constant integer arithmetic, three operators deep, in all five groupings
 AOps  == IF Tier = "quick" THEN <<"+", "-", "*", "/">> ELSE <<"+", "-", "*", "/", "%">>
